@@ -28,11 +28,13 @@ TRUSTED_BASE = L.TRUSTED_COMMON + [
 ]
 PROFILE = L.profile(without=['clear', 'pickle', 'unpickle', 'rawupdate', 'rawdelete'],
                     weights={'create': 12, 'setattr': 14, 'set': 16, 'destroy': 6, 'syncupdate': 5, 'read': 6, 'expire': 1, 'expireall': 1},
-                    p_fault=0.25, p_bad=0.2, p_dup=0.25)
+                    p_fault=0.25, p_bad=0.2, p_dup=0.25, p_unknown_kw=0.12)
 
 
 def corpus():
     return [
+        # fixed (6e79cab): a lazy set() with an unknown keyword queued the other values before raising TypeError
+        {'cfg': {'cache': True, 'freq': 100, 'frac': 2}, 'ops': [['create', 1, [[1, 100]]], ['set', 0, [[0, 5], [3, 1]]], ['read', 0, 0], ['syncupdate', 0]]},
         {'cfg': {'cache': True, 'freq': 100, 'frac': 2}, 'ops': [['create', 0, [[1, 100], [0, 1]]], ['set', 0, [[0, 3], [2, 'bad']]]]},
         {'cfg': {'cache': True, 'freq': 100, 'frac': 2},
          'ops': [['create', 0, [[1, 100]]], ['create', 0, [[1, 101]]], ['set', 1, [[0, 3], [1, 100]]]]},
